@@ -297,6 +297,17 @@ def callName (daskKeyName : Option String) (pure : Bool) (funcname tok uuid : St
   | some n => n
   | none => funcname ++ "-" ++ (if pure then tok else uuid)
 
+/-- the purity `call_function` works with: `pure = kwargs.pop("pure", pure)` (the argument of the call, else what the
+    DelayedLeaf was built with; a method call passes nothing), and `tokenize(…, pure=None)` falls back on the
+    configuration `delayed_pure` -/
+def effPure (callPure leafPure : Option Bool) (cfg : Bool) : Bool :=
+  match callPure with
+  | some p => p
+  | none =>
+    match leafPure with
+    | some p => p
+    | none => cfg
+
 /-- what a Delayed operand contributes to a token: `Delayed.__dask_tokenize__` is its key (a str) -/
 def delTok (key : String) : Val := .str key
 
